@@ -48,7 +48,7 @@ func init() {
 			}
 		}
 	}
-	c17Probes = append(c17Probes, 0x1000, 0x8000)
+	c17Probes = append(c17Probes, 0x1000, 0x8000, 0x10000, 0x10061, 0x10100, 0x12000, 0x1FFFE, 0x10FFFF)
 }
 
 func (o c17Op) String() string {
@@ -101,7 +101,11 @@ func c17Run(c *mon.Case, hist string) {
 			m.Clear()
 			model = model[:0]
 		}
-		for _, p := range c17Probes {
+		// the probes are visited in an order that rotates with the step, so that the last character looked up
+		// before the next registration varies (a cache of the last lookup would otherwise stay hidden)
+		rot := (step*7 + int(hist[step])) % len(c17Probes)
+		for pi := range c17Probes {
+			p := c17Probes[(pi+rot)%len(c17Probes)]
 			want := 0
 			for i := len(model) - 1; i >= 0; i-- {
 				if p >= model[i].lo && p <= model[i].hi {
@@ -188,7 +192,7 @@ func buildC17(cfg *mon.Config) []*mon.Sub {
 	}
 	rnd := &mon.Sub{
 		Name:  "history-random",
-		Rule:  "seeded random histories of length 4..30 over the same 88 operations (length 4 sampled densely), same oracle",
+		Rule:  "seeded random histories of length 4..30 over the same 88 operations (length 4 sampled densely; one in eight with 34..93 registrations and no Clear), same oracle",
 		Floor: 1000,
 		Gen: func(emit func(string)) {
 			r := cfg.Rng("c17-random")
@@ -196,10 +200,15 @@ func buildC17(cfg *mon.Config) []*mon.Sub {
 				n := 4
 				if r.Chance(1, 4) {
 					n = 4 + r.Intn(27)
+				} else if r.Chance(1, 6) {
+					n = 34 + r.Intn(60) // many registrations without a Clear
 				}
 				b := make([]byte, n)
 				for j := range b {
 					b[j] = byte(r.Intn(len(c17Ops)))
+					if n > 33 && c17Ops[b[j]].kind == 'c' {
+						b[j] = byte(r.Intn(84)) // long histories: no Clear
+					}
 				}
 				emit(string(b))
 			}
